@@ -495,5 +495,87 @@ class HypervRaw(c17.RawSuite):
         return []
 
 
-SUITES = {"raw": HypervRaw(), "bombs": Bombs(), "wild_vdi": WildVdi(), "wild_hds": WildHds(), "wild_vhdx": WildVhdx(), "mutants": Mutants(),
+class VmdkDescText(Suite):
+    """Descriptor text (as found in a .vmdk text file or embedded in a sparse extent) that is truncated or damaged inside
+    an extent line: long quoted file names without closing quote, with backslashes, quotes, runs of spaces or digits.
+    DiskDescriptor.parse must return or raise in time linear in the text (no super-linear pattern matching)."""
+    name = "vmdk_desc"
+    per_case_timeout = 8.0
+
+    def generate(self, rng, tier):
+        n = 400 if tier == "thorough" else 60
+        out = []
+        head = '# Disk DescriptorFile\nversion=1\nCID=fffffffe\nparentCID=ffffffff\ncreateType="monolithicFlat"\n\n'
+        alph = "abcdefghijklmnopqrstuvwxyzABCDEFGHIJKLMNOPQRSTUVWXYZ0123456789-_. "
+        while len(out) < n:
+            ln = rng.randint(25, 90)
+            style = rng.pick(["plain", "backslash", "quotes", "spaces", "digits", "mixed"])
+            if style == "plain":
+                name = "".join(rng.pick(alph) for _ in range(ln))
+            elif style == "backslash":
+                name = "".join(rng.pick(["\\\\", "\\", "a", "b", "\\\""]) for _ in range(ln))
+            elif style == "quotes":
+                name = "".join(rng.pick(['"', "a", " ", '" "']) for _ in range(ln))
+            elif style == "spaces":
+                name = "".join(rng.pick([" ", " ", "\t", "x"]) for _ in range(ln))
+            elif style == "digits":
+                name = "".join(rng.pick(["1", "2 ", " 3", "0"]) for _ in range(ln))
+            else:
+                name = "".join(rng.pick(list(alph) + ["\\", '"', " 0 ", "\t"]) for _ in range(ln))
+            typ = rng.pick(["FLAT", "SPARSE", "VMFS", "SESPARSE", "VMFSSPARSE", "ZERO"])
+            line = f'{rng.pick(["RW", "RDONLY", "NOACCESS"])} {rng.randint(1, 1 << 40)} {typ} "{name}.vmdk" {rng.pick(["0", "", "63", "12 part dev"])}'
+            q0 = line.index('"')
+            how = rng.weighted([("cut_in_name", 6), ("cut_anywhere", 2), ("no_close", 3), ("whole", 1), ("tail_junk", 2)])
+            if how == "cut_in_name":
+                line = line[:rng.randint(q0 + 20, max(q0 + 21, len(line) - 8))]
+            elif how == "cut_anywhere":
+                line = line[:rng.randint(1, len(line))]
+            elif how == "no_close":
+                line = line.replace('.vmdk"', ".vmdk", 1)
+            elif how == "tail_junk":
+                line = line + rng.pick([' "', " \\", ' x" y', " 1 2 3 4 5 6 7 8 9"]) * rng.randint(1, 12)
+            text = head + line + rng.pick(["", "\n", "\r\n", '\nddb.adapterType = "ide"\n'])
+            out.append({"text": text, "style": style, "how": how})
+        return out
+
+    def impl(self, case):
+        from dissect.hypervisor.disk.vmdk import DiskDescriptor
+        try:
+            d = DiskDescriptor.parse(case["text"])
+            return {"res": "ok", "extents": len(d.extents)}
+        except Exception as e:  # noqa: BLE001
+            return {"res": "exc", "exc": type(e).__name__}
+
+    def judge(self, case, impl_res, coq_val):
+        if impl_res.get("outcome") in ("hang", "crash", "oom"):
+            return [Finding("impl_fault", f"descriptor text ({case['style']}, {case['how']}, {len(case['text'])} chars): "
+                            f"DiskDescriptor.parse {impl_res['outcome']}", f"vmdk:desc:{impl_res['outcome']}")]
+        return []
+
+    def nontrivial(self, case, impl_res, coq_val):
+        return core.sha(case["text"].encode())
+
+    def dist(self, case):
+        return {"style": case["style"], "how": case["how"]}
+
+
+class HypervMal(c17.MalSuite):
+    """C17's malformed Hyper-V files (every structural field corrupted in turn, free slots of size 0, table cycles):
+    here only termination and bounded memory are judged; what the decoder returns is C17's business."""
+    name = "hyperv_mal"
+
+    def coq_term(self, case):
+        return None
+
+    def judge(self, case, impl_res, coq_val):
+        if impl_res.get("outcome") in ("hang", "crash", "oom"):
+            return [Finding("impl_fault", f"Hyper-V file with mutation {case['mutation']}: implementation {impl_res['outcome']}",
+                            f"hyperv:mal:{case['mutation']}:{impl_res['outcome']}")]
+        return []
+
+    def nontrivial(self, case, impl_res, coq_val):
+        return core.sha(core.jdump(case).encode())
+
+
+SUITES = {"raw": HypervRaw(), "hyperv_mal": HypervMal(), "vmdk_desc": VmdkDescText(), "bombs": Bombs(), "wild_vdi": WildVdi(), "wild_hds": WildHds(), "wild_vhdx": WildVhdx(), "mutants": Mutants(),
           "snapchain": SnapChain()}
